@@ -11,6 +11,7 @@ import (
 	"encoding/binary"
 	"fmt"
 	"math/rand/v2"
+	"net"
 	"time"
 
 	"github.com/vmware/go-ipfix/pkg/collector"
@@ -366,6 +367,122 @@ func main() {
 		}
 		if k < from+3 && len(inputs) > 0 {
 			c.Sample(8, map[string]any{"mode": mode, "state": cls, "setup": hexes(setup), "input_kind": inputs[len(inputs)/2].kind, "input": fmt.Sprintf("%x", clip(inputs[len(inputs)/2].b, 96))})
+		}
+	}
+	if c.Count < 0 && c.Start == 0 {
+		socketPhase(c, reg, c.Pick(3000, 60000))
+	}
+}
+
+// socketPhase presents hostile inputs through the real UDP and TCP handlers (goroutines,
+// sockets) instead of the hook: a panic in a handler goroutine kills this process (the
+// front-end attributes the crash to the journaled phase), a stuck handler or a dead
+// listener shows as an undelivered probe message sent afterwards from the same socket.
+func socketPhase(c *hx.Ctx, reg *mirror.Registry, n int) {
+	big := c.NewWatch(240*time.Second, 2<<30)
+	for pi, proto := range []string{"udp", "tcp"} {
+		k := -10 - pi
+		r := c.Rand(k, 7)
+		mode := []string{mirror.Keep, mirror.Strict, mirror.Drop}[(c.Batch+pi)%3]
+		c.Journal(k, map[string]any{"phase": "hostile inputs through the real " + proto + " handler", "mode": mode, "inputs": n})
+		coll, err := lib.StartCollector(collector.CollectorInput{Address: "127.0.0.1:0", Protocol: proto, MaxBufferSize: 65535, DecodingMode: collector.DecodingMode(mode)})
+		if err != nil {
+			c.Inconclusive("socket phase: " + err.Error())
+			return
+		}
+		big.Begin(k, "socket-phase-"+proto, nil)
+		domain := uint32(0x50C00000 | uint32(c.Batch)<<8 | uint32(pi))
+		tid := uint16(400)
+		t := mkTemplate(r, mode, "natural", tid)
+		tm := tmplMsg(domain, t)
+		model := mirror.Table{}
+		model.Apply(reg, mode, tm)
+		lay := model[mirror.Key{Domain: domain, TID: tid}]
+		var inputs []input
+		for len(inputs) < n {
+			switch r.IntN(3) {
+			case 0:
+				b := gen.Bytes(r, r.IntN(300))
+				if len(b) >= 18 {
+					b[0], b[1] = 0, 10
+					binary.BigEndian.PutUint32(b[12:16], domain)
+					binary.BigEndian.PutUint16(b[16:18], tid)
+				}
+				inputs = append(inputs, input{"random", b})
+			case 1:
+				if lay != nil {
+					inputs = append(inputs, mutations(r, dataMsg(r, domain, tid, lay, 1+r.IntN(3)), "data", false)...)
+				}
+			default:
+				tc := []string{"natural", "zero-fields", "zero-length-unknown", "all-variable", "signed64", "reduced-size"}[r.IntN(6)]
+				inputs = append(inputs, mutations(r, tmplMsg(domain, mkTemplate(r, mode, tc, uint16(401+r.IntN(5)))), "template", false)...)
+			}
+		}
+		inputs = inputs[:n]
+		probeDomain := domain | 0x80
+		probeT := tdef{tid: 777, fields: gen.Fields([]regtable.Elem{lib.CustomElems[11]}), elems: []regtable.Elem{lib.CustomElems[11]}}
+		probe := [][]byte{tmplMsg(probeDomain, probeT), refipfix.BuildMessage(probeDomain, 1, 1, 777, refipfix.PU(4, 0xFEEDF00D))}
+		if proto == "udp" {
+			conn, err := net.Dial("udp", coll.Addr())
+			if err != nil {
+				c.Inconclusive("socket phase: " + err.Error())
+				return
+			}
+			conn.Write(tm)
+			for i, in := range inputs {
+				if len(in.b) > 65000 {
+					continue
+				}
+				conn.Write(in.b)
+				if i%64 == 63 {
+					time.Sleep(time.Millisecond) // do not overflow the socket buffer: the inputs should be decoded, not dropped
+				}
+			}
+			// the same client (same source address, hence the same handler goroutine) must still be served
+			ok := false
+			for attempt := 0; attempt < 5 && !ok; attempt++ {
+				conn.Write(probe[0])
+				conn.Write(probe[1])
+				_, ok = coll.Wait(probeDomain, 2, 3*time.Second)
+			}
+			conn.Close()
+			if !ok {
+				c.Violation(k, "unresponsive-after-hostile-input:udp", fmt.Sprintf("after %d hostile datagrams the collector no longer decodes valid messages from the same exporter address (5 attempts, 15 s)", len(inputs)), map[string]any{"mode": mode})
+			}
+		} else {
+			for i := 0; i < len(inputs); i += 4 {
+				conn, err := net.Dial("tcp", coll.Addr())
+				if err != nil {
+					c.Violation(k, "listener-dead:tcp", fmt.Sprintf("cannot connect after %d hostile inputs: %v", i, err), nil)
+					break
+				}
+				conn.Write(tm)
+				for _, in := range inputs[i:min(i+4, len(inputs))] {
+					// make it one frame for the TCP reader: the header length covers what is sent
+					b := append([]byte{}, in.b...)
+					if len(b) >= 4 && len(b) <= 65535 {
+						binary.BigEndian.PutUint16(b[2:4], uint16(len(b)))
+					}
+					conn.Write(b)
+				}
+				conn.Close()
+			}
+			conn, err := net.Dial("tcp", coll.Addr())
+			ok := false
+			if err == nil {
+				conn.Write(probe[0])
+				conn.Write(probe[1])
+				_, ok = coll.Wait(probeDomain, 2, 15*time.Second)
+				conn.Close()
+			}
+			if !ok {
+				c.Violation(k, "unresponsive-after-hostile-input:tcp", fmt.Sprintf("after %d hostile inputs over TCP a fresh connection's valid messages are not delivered (15 s)", len(inputs)), map[string]any{"mode": mode})
+			}
+		}
+		big.End()
+		c.Add("inputs_through_real_"+proto+"_handler", int64(len(inputs)))
+		if d, ok := coll.Stop(30 * time.Second); !ok {
+			c.Violation(k, "stop-hang-after-hostile-input:"+proto, fmt.Sprintf("Stop did not return within 30 s (%v) after the hostile inputs", d), nil)
 		}
 	}
 }
